@@ -1,6 +1,7 @@
 package props
 
 import (
+	"fmt"
 	"encoding/json"
 
 	"godsverif/core"
@@ -278,6 +279,28 @@ func runC11(c *core.Ctx) {
 		{"FromJSON", func(t *Dyn) error { return t.JSON.FromJSON(j) }},
 		{"json.Unmarshal", func(t *Dyn) error { return json.Unmarshal(j, t.Raw) }},
 		{"UnmarshalJSON", func(t *Dyn) error { return t.JSON.UnmarshalJSON(j) }},
+		// as a member of an enclosing document: encoding/json hands the loader a
+		// sub-slice of the caller's buffer, with the rest of the document behind
+		// it; the members after it must still decode
+		{"json.Unmarshal(enclosing document)", func(t *Dyn) error {
+			u, ok := t.Raw.(json.Unmarshaler)
+			if !ok {
+				return t.JSON.FromJSON(j)
+			}
+			holder := struct {
+				A int              `json:"a"`
+				C json.Unmarshaler `json:"c"`
+				Z []int            `json:"z"`
+			}{C: u}
+			doc := append(append([]byte(`{"a":1,"c":`), j...), `,"z":[2,3]}`...)
+			if err := json.Unmarshal(doc, &holder); err != nil {
+				return err
+			}
+			if holder.A != 1 || len(holder.Z) != 2 || holder.Z[0] != 2 || holder.Z[1] != 3 {
+				return fmt.Errorf("the members around the container decoded as a=%d z=%v, want a=1 z=[2 3]", holder.A, holder.Z)
+			}
+			return nil
+		}},
 	}
 	var reloaded []*Dyn
 	for _, ld := range loaders {
@@ -360,7 +383,7 @@ func init() {
 		Run:   runC11,
 		ParSkip: func(string) int { return len(hugeRoundTripKinds) + sizedRoundTripCases() + 8 },
 		Rule: "one container per case, cycling through all 21 kinds (int/string elements, four key/value type pairs incl. values whose text equals keys, all comparators, ring capacities 1..64, B-tree orders) in a state that is never-used, used-then-cleared or reached by a random history (wrapped, partially filled and full rings); " +
-			"ToJSON must succeed, be valid JSON of the right shape and equal json.Marshal (byte for byte; up to element order for hash containers) without altering the container; its output is loaded by FromJSON, json.Unmarshal and UnmarshalJSON into three fresh containers of the same configuration, " +
+			"ToJSON must succeed, be valid JSON of the right shape and equal json.Marshal (byte for byte; up to element order for hash containers) without altering the container; its output is loaded by FromJSON, json.Unmarshal, UnmarshalJSON and json.Unmarshal of an enclosing document (the container as a member between other members) into four fresh containers of the same configuration, " +
 			"each of which must be equivalent to the original in every observer and iteration order, then drained in lockstep with it (stacks, queues, heaps) or continued with identical calls (others). Every case is non-trivial; distinct = distinct hash of the call list and the serialized state.",
 		Floors: func(tier string, m map[string]int64) []string {
 			f := &floorCheck{m: m}
